@@ -776,7 +776,8 @@ def c05_work(item, ctx):
     two = kind == "probe2"        # two servers (CO_SSDO_N = 2): history, recovery and clean transfer on either of them
     exe = ctx["exes"]["asan2" if two else "asan"]
     rng = random.Random(F.seed_for(ctx["seed"], "C05", kind, idx))
-    world = World(rng, ns=2 if two else 1, small=rng.random() < 0.5)
+    resetdev = idx % 5 == 4
+    world = World(rng, ns=2 if two else 1, small=rng.random() < 0.5, resetdev=resetdev)
     sim = S.Sim(exe, world.cfg)
     run = Runner(res, sim, world, "C05")
     g = H.Hostile(rng, world.cfg, 1)
@@ -805,8 +806,17 @@ def c05_work(item, ctx):
             lines = [l.replace("rx %x " % g.sdo_req_id(0), "rx %x " % world.req_id(sv if (not two or rng.random() < 0.8) else 1 - sv)) for l in lines]
             if rng.random() < 0.35:
                 lines += server_abort_ending(rng, world, sv)
+            reset_inside = resetdev and rng.random() < 0.3
+            if reset_inside:
+                # a block download to the object whose write function resets the communication: the reset happens inside the request that
+                # completes the first block (127 segments) - afterwards the node is a node after a reset communication
+                rid_ = world.req_id(sv)
+                lines.append("rx %x 8 8000000000000008" % rid_)
+                lines.append("rx %x 8 %s" % (rid_, (bytes([0xC2, 0x31, 0x21, 0x00]) + (1000).to_bytes(4, "little")).hex()))
+                lines += ["rx %x 8 %s" % (rid_, (bytes([q_]) + gen.rand_bytes(rng, 7)).hex()) for q_ in range(1, 128)]
             ended_by_server = False
-            for l_, evs in zip(lines, sim.batch(lines)):
+            evs_all = sim.batch(lines)
+            for l_, evs in zip(lines, evs_all):
                 for iv in S.invs(evs):
                     res.violation("c05/inv/" + iv.split()[0], "invariant during hostile prefix: " + iv, sim=sim)
                     return res
@@ -819,10 +829,15 @@ def c05_work(item, ctx):
             tup = (st[0], st[1], st[2], int(st[3]) > 0, min(int(st[4]), 900) // 100, int(st[5]) & 0x80, int(st[5]) > 0, int(st[6]) > 0, int(st[7]) != 0)
             res.states.add(tup)
             how = "abort" if rng.random() < 0.75 else "reset"
-            if ended_by_server and rng.random() < 0.6:
+            if reset_inside:
+                if not any(S.cbs(e_, "usrreset") for e_ in evs_all[-3:]):
+                    res.inconclusive.append("the reset inside the write function was not reached")
+                    return res
+                how = "reset-inside-write"
+            elif ended_by_server and rng.random() < 0.6:
                 # no transfer is open after an abort by the server: the client goes on with its next transfer straight away
                 how = "server-abort"
-            if how == "server-abort":
+            if how in ("server-abort", "reset-inside-write"):
                 pass
             elif how == "abort":
                 resp = run.step(sv, RC.abort_frame(rng.choice([0, 0x2120]), 0, 0x08000000))
